@@ -19,10 +19,14 @@ def minI (a b : Int) : Int := if a ≤ b then a else b
 
 /-! ### kind "chain": the real validator chain, in process -/
 
-def chainModel (lim : Limits) (maxBody : Int) (reqs : List (String × Bool × Int)) (times : List Int) : List Bool :=
-  let rs : List Req := (reqs.zip times).map (fun x => ⟨x.2, (x.1.1, 0), x.1.2.1⟩)
+/-- `ages`: simulated silence before a request; the clean-up goroutine's pass during the silence is
+    modelled as one pass right before the request (where the harness runs it). -/
+def chainModel (lim : Limits) (maxBody : Int) (reqs : List (String × Bool × Int)) (ages : List Int) (times : List Int) : List Bool :=
+  let evs : List Ev := ((reqs.zip times).zip ages).flatMap (fun x =>
+    let r : Req := ⟨x.1.2, (x.1.1.1, 0), x.1.1.2.1⟩
+    if x.2 > 0 then [Ev.sweep x.1.2, Ev.req r] else [Ev.req r])
   let t0 := times.headD 0
-  let dec := rateRun lim (RState.init lim t0) rs
+  let dec := rateRunS activeEvict lim (RState.init lim t0) evs
   (dec.zip reqs).map (fun x => x.1.2 && sizeAllowed maxBody (declaredOf x.2.2.2))
 
 def handleChain (case : Nat) (j : Json) : IO Unit := do
@@ -34,8 +38,9 @@ def handleChain (case : Nat) (j : Json) : IO Unit := do
   let t0s := obs.map (fun o => jint (jget o "t0"))
   let t1s := obs.map (fun o => jint (jget o "t1"))
   let allowed := obs.map (fun o => jbool (jget o "allowed"))
-  let m0 := chainModel lim maxBody reqs t0s
-  let m1 := chainModel lim maxBody reqs t1s
+  let ages := (jarr (jget j "reqs")).map (fun r => jint (jget r "age_ms"))
+  let m0 := chainModel lim maxBody reqs ages t0s
+  let m1 := chainModel lim maxBody reqs ages t1s
   let agree := err == "" && obs.length == reqs.length && (allowed == m0 || allowed == m1)
   -- spec: every (client, class) with a positive limit stays within burst + rate·t
   let keys := (reqs.map (fun r => (r.1, r.2.1))).eraseDups
@@ -50,6 +55,7 @@ def handleChain (case : Nat) (j : Json) : IO Unit := do
     ++ (if lim.perIP ≤ 0 then "+bypass" else "")
     ++ (if reqs.any (·.2.1) then "+health" else "")
     ++ (if maxBody > 0 && reqs.any (fun r => r.2.2 > maxBody || r.2.2 < 0) then "+size" else "")
+    ++ (if ages.any (· > 0) then "+silence" else "")
     ++ (if m0.all id then "+all-admitted" else if m0.any id then "+some-refused" else "+none-admitted")
   emit case agree spec branch (if spec then "" else "validator-chain-exceeds-bucket-bound")
     (if spec && agree then "" else s!"limits global {lim.global} per-ip {lim.perIP} health {lim.health} burst {lim.burst} max-body {maxBody}: chain answered {allowed}, model {m0}; keys over the bound: {bad}; err '{err}'")
